@@ -131,6 +131,15 @@ def sessionFrom (refusalStops : Bool) (p : Proc) (o : Outcome) (h : Nat) : List 
   | .rejected => andThen (andThen born (pathsOf p.run .early)) stops
   | .ran      => andThen (andThen born (pathsOf p.run .full)) stops
 
+/-- a session whose processes are retryable (signing): the coordinator's `handleError` makes at most ONE further
+    attempt, so `Run` is entered at most twice on one object - each time leaving early (SubsetError, start parameters
+    rejected) or running the protocol - and `Stop` is called once. Every combination of paths. -/
+def retriedFrom (p : Proc) (h : Nat) : List Delta :=
+  let born := andThen [Delta.start h] (pathsOf p.ctor .full)
+  let runs := pathsOf p.run .early ++ pathsOf p.run .full
+  let stops := pathsOf p.stop .full ++ pathsOf p.stop .early
+  andThen (andThen (andThen born runs) runs) stops
+
 def Delta.add (a b : Delta) : Delta :=
   ⟨b.held, a.locks + b.locks, a.unlocks + b.unlocks, a.fatal + b.fatal, a.blocked + b.blocked,
    a.accL + b.accL, a.accU + b.accU, b.runHeld, a.unknown || b.unknown⟩
